@@ -5,6 +5,7 @@ mod c18;
 mod c19;
 mod c20;
 mod c21;
+mod der;
 mod edit;
 mod keys;
 mod noise_kit;
